@@ -3,7 +3,9 @@
 One SoftwareSwitch on a fake IOWorker (pvf.sim.world.SwitchEnd, no controller).  A case is a small
 script: port-mods, link-down marks, a fragment-handling mode, then 1..3 deliveries of a frame with an
 action list, either by OFPT_PACKET_OUT, or by installing a flow and injecting the frame on a port, or
-with an empty table (table miss).  All OpenFlow messages are encoded here with `struct` from
+with an empty table (table miss).  Between deliveries further port-mods, link changes and "the next
+transmit fails once" (a DpPacketOut listener of the harness raising) may occur; every delivery is judged
+against the port state of its own moment, and the delivery in which a transmit failed is not judged.  All OpenFlow messages are encoded here with `struct` from
 openflow.h 1.0 and replies are decoded the same way; POX's own codec is only on the receiving side.
 
 Oracle: pvf.ref.of10_actions.apply() on the raw bytes (independent of pox.lib.packet), compared with
@@ -35,7 +37,8 @@ RULE = ("a case is a script of port-mods, link-down marks and 1..3 deliveries (p
         "an emitting output, or (c) addresses (directly, by IN_PORT, or by FLOOD/ALL) a port that may not transmit (PORT_DOWN, link "
         "down, NO_FWD, NO_FLOOD under FLOOD), or (d) arrives on a port that is receive-disabled for it or is dropped at a down ingress port, or (e) misses the "
         "table on a NO_PACKET_IN port, or (f) emits after a field-modify action that is not applicable to the frame (nw/tp rewrite on "
-        "ARP, on a 0x9100/0x88a8 frame that only resembles tagged IPv4, tp rewrite on ICMP ...); distinct by SHA-1 of the canonical JSON of the case")
+        "ARP, on a 0x9100/0x88a8 frame that only resembles tagged IPv4, tp rewrite on ICMP ...), or (g) has a transmit failure fire in a "
+        "delivery that is followed by a judged one; distinct by SHA-1 of the canonical JSON of the case")
 ASSUMPTIONS = [
   "frames carry valid checksums and consistent lengths and no link-layer trailer (the generator builds them with ref/frames.py; the validator re-checks every input frame)",
   "output to the ingress port's own number is dropped; OFPP_IN_PORT is needed to send back (OpenFlow 1.0.0 section 3.3)",
@@ -48,14 +51,19 @@ ASSUMPTIONS = [
   "a frame arriving on a port that is administratively down or link-down may be processed or dropped; frames dropped by NO_RECV/NO_RECV_STP may or may not be counted in rx_packets/rx_bytes; "
   "rx counters may or may not count OFPP_TABLE lookups; tx counters must equal exactly what was emitted",
   "OFPPC_NO_PACKET_IN must suppress table-miss packet-ins; whether it suppresses packet-ins of an explicit output to OFPP_CONTROLLER is left open (all or none accepted)",
-  "link-down is set by the harness on the switch's ofp_phy_port.state after all port-mods (POX derives link state from PORT_DOWN only)",
+  "link-down / link-up is set by the harness on the switch's ofp_phy_port.state (POX has no other way; it derives link state from PORT_DOWN only) and re-asserted after every port-mod; "
+  "ports are not added or deleted (OpenFlow 1.0 has no message for it)",
+  "a transmit that fails (the harness's DpPacketOut listener raising once) may abort the delivery it happens in - that delivery and the counters it moved are not judged - "
+  "but must leave the switch behaving, for every later delivery, as one that never had the failure",
   "'other' frames are 802.3/LLC, SNAP, well-formed LLDP and EAPOL-Start/Logoff, RARP, and EtherTypes / IP protocols the packet library does not dissect; "
   "IPv6, IGMP, GRE, MPLS and malformed payloads of dissected protocols are left to C14/C15",
 ]
 EXHAUSTIVE_SCOPE = {
   "quick": "all 64 x 64 combinations of {PORT_DOWN, NO_RECV, NO_RECV_STP, NO_FLOOD, NO_FWD, NO_PACKET_IN} on ingress port 1 and egress port 2 of a 3-port switch (set by port-mod), "
            "x {flow, packet-out} delivery x {ordinary, STP-destination} frame with the fixed list [set_dl_src, output:2, set_vlan_vid, FLOOD, set_nw_tos, IN_PORT, ALL, CONTROLLER]; plus the 64 ingress configs x 2 frames for a table miss; "
-           "and each of the 10 field-modify actions alone before an output x 13 frames it must leave alone or that only resemble tagged IPv4 (EtherTypes 0x9100/0x88a8/0x9200/0x9300/0x8101/0x0801 before a tag-like word + IPv4/TCP, ARP, ICMP, later fragment, LLC) x {flow, packet-out} x 2 output tails",
+           "and each of the 10 field-modify actions alone before an output x 13 frames it must leave alone or that only resemble tagged IPv4 (EtherTypes 0x9100/0x88a8/0x9200/0x9300/0x8101/0x0801 before a tag-like word + IPv4/TCP, ARP, ICMP, later fragment, LLC) x {flow, packet-out} x 2 output tails; "
+           "and 8 first deliveries x 44 changes in between (each of the 6 config bits set / cleared by port-mod on port 1, 2 or 3, link down / up on each, one failing transmit, nothing) x 8 second deliveries "
+           "(flow FLOOD / ALL / FLOOD of an STP frame / [set_dl_dst, 2, IN_PORT, CONTROLLER], packet-out FLOOD / ALL / TABLE, table miss)",
   "thorough": "as quick, additionally with a tagged TCP frame and the list [strip_vlan, ALL, set_tp_dst, output:2, set_nw_dst, FLOOD, enqueue:2, CONTROLLER]",
 }
 
